@@ -984,6 +984,11 @@ func (p *Parser) parseSimpleStmt(forIn bool) Stmt {
 					p.errorExpected(x[1].Pos(), "identifier")
 					value = &Ident{Name: "_", NamePos: x[1].Pos()}
 				}
+			default:
+				// for a, b, c in x: only a key and a value can be named
+				p.errorExpected(x[2].Pos(), "'in'")
+				key = &Ident{Name: "_", NamePos: x[0].Pos()}
+				value = &Ident{Name: "_", NamePos: x[1].Pos()}
 			}
 			return &ForInStmt{
 				Key:      key,
